@@ -372,6 +372,9 @@ func RunScenario(t *testing.T, rec *Recorder, sc *Scenario) {
 		}
 		seed, _ := strconv.ParseUint(eff["rapid.seed"], 10, 64)
 		checks, _ := strconv.Atoi(eff["rapid.checks"])
+		if testing.Short() {
+			checks /= 5 // (go test -short: rapid runs a fifth of the checks)
+		}
 		if p.Keyed && !(i > 0 && run.Prop == nil && (run.SeedPrev || run.FailfilePrev || run.Expect == "replay_prev" || run.Expect == "seed_prev")) {
 			// (a re-run of the same property keeps the same value-keyed script: it is the same function of its draws)
 			r.keyed = map[uint64][]Op{}
